@@ -624,13 +624,32 @@ func (t *patricia[V]) WithPrefix(key string) []KeyValue[string, V] {
 	kvs := []KeyValue[string, V]{}
 	bitKey := newBitString(key)
 
-	if n := t.search(bitKey); n != nil && n.key.Equal(bitKey) {
-		kvs = append(kvs, KeyValue[string, V]{Key: n.key.String(), Val: n.val})
-	} else {
-		t._traverse(n, Ascending, func(n *patriciaNode[V]) bool {
+	if t.root == nil {
+		return kvs
+	}
+
+	visit := func(n *patriciaNode[V]) bool {
+		if n.key.Len() >= bitKey.Len() && n.key.HasPrefix(bitKey) {
 			kvs = append(kvs, KeyValue[string, V]{Key: n.key.String(), Val: n.val})
-			return true
-		})
+		}
+		return true
+	}
+
+	// Follow the bits of the prefix; all keys with the prefix, if any, are below the link reached.
+	prev, curr := t.root, t.root.left
+	for curr.bp > prev.bp && curr.bp <= bitKey.Len() {
+		prev = curr
+		if bitKey.Bit(curr.bp) {
+			curr = curr.right
+		} else {
+			curr = curr.left
+		}
+	}
+
+	if curr.bp <= prev.bp { // a thread: the only candidate
+		visit(curr)
+	} else if curr.key.HasPrefix(bitKey) { // keys of a sub-tree agree on all bits before its bit position
+		t._traverse(curr, Ascending, visit)
 	}
 
 	return kvs
